@@ -157,13 +157,73 @@ Proof.
   intros H; injection H as <- <-. exists c, hh. repeat split; assumption.
 Qed.
 
-(* a PUBREL of a stored message is a guarded update that keeps handler and phase *)
+(* the steps that touch the inbound stores: their shape *)
+Definition inherited_store (s : sys) (k : nat) (c : client) : nat :=
+  match cur s with
+  | Some j => if Nat.eqb j k then c_store c
+              else match nth_error (clients s) j with Some cj => c_store cj | None => c_store c end
+  | None => c_store c
+  end.
+
+Lemma set_client_inv s k s' e :
+  step s (R_set_client k) = Next s' e ->
+  exists c st, nth_error (clients s) k = Some c /\ is_fresh (c_phase c) = true /\
+    s' = {| rc_handler := rc_handler s; cur := Some k; clients := upd k (set_store st) (clients s);
+            stores := stores s |} /\ e = [] /\ st = inherited_store s k c.
+Proof.
+  unfold step, step_gen, inherited_store. destruct (nth_error (clients s) k) as [c|]; [|discriminate].
+  destruct (is_fresh (c_phase c)) eqn:E; [|discriminate]. cbn.
+  intros H; injection H as <- <-. exists c. eexists. repeat split. exact E.
+  destruct (cur s) as [j|]; [|reflexivity]. rewrite orb_false_r. reflexivity.
+Qed.
+
+Lemma q2_publish_inv s k m d s' e :
+  step s (B_q2_publish k m d) = Next s' e ->
+  exists c, nth_error (clients s) k = Some c /\ reader_runs (c_phase c) = true /\
+    s' = with_stores s (upd_st (c_store c) (fun l => (m, c_handler c) :: sb_remove m l) (stores s)) /\ e = [].
+Proof.
+  unfold step, step_gen. destruct (nth_error (clients s) k) as [c|]; [|discriminate].
+  destruct (reader_runs (c_phase c)) eqn:E; [|discriminate]. cbn.
+  intros H; injection H as <- <-. exists c. repeat split. exact E.
+Qed.
+
 Lemma q2_release_inv s k m s' e :
   step s (B_q2_release k m) = Next s' e ->
-  on_client s k reader_runs (unstore m) (fun c => [Deliver k m (c_handler c)]) = Next s' e.
+  exists c hp, nth_error (clients s) k = Some c /\ reader_runs (c_phase c) = true /\
+    sb_lookup m (store_of s c) = Some hp /\
+    s' = with_stores s (upd_st (c_store c) (sb_remove m) (stores s)) /\ e = [Deliver k m (c_handler c)].
 Proof.
-  unfold step, step_gen. destruct (nth_error (clients s) k) as [c0|]; [|discriminate].
-  destruct (sb_lookup m (c_stored c0)); [|discriminate]. cbn. intros H; exact H.
+  unfold step, step_gen. destruct (nth_error (clients s) k) as [c|]; [|discriminate].
+  destruct (reader_runs (c_phase c)) eqn:E; [|discriminate].
+  destruct (sb_lookup m (store_of s c)) as [hp|] eqn:El; [|discriminate]. cbn.
+  intros H; injection H as <- <-. exists c, hp. repeat split; assumption.
+Qed.
+
+Lemma start_clean_inv s k s' e :
+  step s (R_connect_start_clean k) = Next s' e ->
+  exists s0 st, on_client s k is_installed (set_phase Reading) no_events = Next s0 e /\ s' = with_stores s0 st.
+Proof.
+  unfold step, step_gen, on_client. destruct (nth_error (clients s) k) as [c|]; [|discriminate].
+  destruct (is_installed (c_phase c)) eqn:E; [|discriminate].
+  intros H; injection H as <- <-. eexists. eexists. split; reflexivity.
+Qed.
+
+Lemma pubrel_unknown_inv s k m s' e :
+  step s (B_pubrel_unknown k m) = Next s' e -> s' = s /\ e = [].
+Proof.
+  unfold step, step_gen. destruct (nth_error (clients s) k) as [c|]; [|discriminate].
+  destruct (reader_runs (c_phase c)); [|discriminate].
+  destruct (sb_lookup m (store_of s c)); [discriminate|]. intros H; injection H as <- <-. split; reflexivity.
+Qed.
+
+Lemma nth_upd_set_store k st cs j d :
+  nth_error (upd k (set_store st) cs) j = Some d ->
+  exists c0, nth_error cs j = Some c0 /\ c_phase d = c_phase c0 /\ c_handler d = c_handler c0.
+Proof.
+  destruct (Nat.eq_dec j k) as [->|Hne].
+  - rewrite nth_upd_same. destruct (nth_error cs k) as [c0|]; [|discriminate]. cbn.
+    intros H; injection H as <-. exists c0. repeat split.
+  - rewrite nth_upd_other by exact Hne. intros H. exists d. repeat split. exact H.
 Qed.
 
 (* what one step does to RetryClient.handler and RetryClient.cli *)
@@ -173,13 +233,15 @@ Lemma step_rc s l s' e :
 Proof.
   intros H; destruct l;
     try (apply inbound_handle_inv in H as (c & hh & _ & _ & _ & -> & _); reflexivity);
-    try (apply q2_release_inv in H; apply on_client_inv in H as (c & _ & _ & -> & _); reflexivity);
+    try (apply pubrel_unknown_inv in H as (-> & _); reflexivity);
+    try (apply q2_publish_inv in H as (c & _ & _ & -> & _); reflexivity);
+    try (apply q2_release_inv in H as (c & hp & _ & _ & _ & -> & _); reflexivity);
+    try (apply start_clean_inv in H as (s0 & st & H & ->); apply on_client_inv in H as (c & _ & _ & -> & _); reflexivity);
+    try (apply set_client_inv in H as (c & st & _ & _ & -> & _ & _); reflexivity);
     unfold step, step_gen in H; cbn in H;
     try (apply on_client_inv in H as (c & _ & _ & -> & _); reflexivity).
   - injection H as <- _. reflexivity.
   - injection H as <- _. reflexivity.
-  - destruct (nth_error (clients s) k) as [c|]; [|discriminate].
-    destruct (is_fresh (c_phase c)); [|discriminate]. injection H as <- _. reflexivity.
   - destruct (cur s); [|discriminate].
     apply on_client_inv in H as (c & _ & _ & -> & _). reflexivity.
 Qed.
@@ -190,13 +252,15 @@ Lemma step_cur s l s' e :
 Proof.
   intros H; destruct l;
     try (apply inbound_handle_inv in H as (c & hh & _ & _ & _ & -> & _); reflexivity);
-    try (apply q2_release_inv in H; apply on_client_inv in H as (c & _ & _ & -> & _); reflexivity);
+    try (apply pubrel_unknown_inv in H as (-> & _); reflexivity);
+    try (apply q2_publish_inv in H as (c & _ & _ & -> & _); reflexivity);
+    try (apply q2_release_inv in H as (c & hp & _ & _ & _ & -> & _); reflexivity);
+    try (apply start_clean_inv in H as (s0 & st & H & ->); apply on_client_inv in H as (c & _ & _ & -> & _); reflexivity);
+    try (apply set_client_inv in H as (c & st & _ & _ & -> & _ & _); reflexivity);
     unfold step, step_gen in H; cbn in H;
     try (apply on_client_inv in H as (c & _ & _ & -> & _); reflexivity).
   - injection H as <- _. reflexivity.
   - injection H as <- _. reflexivity.
-  - destruct (nth_error (clients s) k) as [c|]; [|discriminate].
-    destruct (is_fresh (c_phase c)); [|discriminate]. injection H as <- _. reflexivity.
   - destruct (cur s) eqn:Ec; [|discriminate].
     apply on_client_inv in H as (c & _ & _ & -> & _). cbn. exact Ec.
 Qed.
@@ -215,15 +279,17 @@ Lemma step_events s l s' e :
   end.
 Proof.
   intros H; destruct l;
-    try (apply q2_release_inv in H; apply on_client_inv in H as (c & Hn & He & _ & ->); exists c; auto);
+    try (apply q2_release_inv in H as (c & hp & Hn & He & _ & _ & ->); exists c; auto);
+    try (apply q2_publish_inv in H as (c & _ & _ & _ & ->); reflexivity);
+    try (apply pubrel_unknown_inv in H as (_ & ->); reflexivity);
+    try (apply start_clean_inv in H as (s0 & st & H & _); apply on_client_inv in H as (c & _ & _ & _ & ->); reflexivity);
+    try (apply set_client_inv in H as (c & st & _ & _ & _ & -> & _); reflexivity);
     try (apply inbound_handle_inv in H as (c & hh & Hn & He & Hh & _ & ->); exists c; rewrite Hh;
          repeat split; try assumption; discriminate);
     unfold step, step_gen in H; cbn in H;
     try (apply on_client_inv in H as (c & Hn & He & _ & ->); first [reflexivity | exists c; auto]).
   - injection H as _ <-. reflexivity.
   - injection H as _ <-. reflexivity.
-  - destruct (nth_error (clients s) k) as [c|]; [|discriminate].
-    destruct (is_fresh (c_phase c)); [|discriminate]. injection H as _ <-. reflexivity.
   - destruct (cur s); [|discriminate].
     apply on_client_inv in H as (c & _ & _ & _ & ->). reflexivity.
 Qed.
@@ -272,8 +338,17 @@ Lemma step_inv s l s' e : inv s -> step s l = Next s' e -> inv s'.
 Proof.
   intros I H. destruct l;
     try (apply inbound_handle_inv in H as (c & hh & _ & _ & _ & -> & _); apply do_handle_inv);
-    try (apply q2_release_inv in H; eapply inv_on_client; [exact I|exact H|]; intros c He Hp; left;
-         split; [exact Hp | reflexivity]);
+    try (apply q2_publish_inv in H as (c & _ & _ & -> & _); exact I);
+    try (apply pubrel_unknown_inv in H as (-> & _); exact I);
+    try (apply q2_release_inv in H as (c & hp & _ & _ & _ & -> & _); exact I);
+    try (apply start_clean_inv in H as (s0 & st & H & ->);
+         assert (I0 : inv s0) by (eapply inv_on_client; [exact I|exact H|]; intros c He Hp; left;
+                                  split; [destruct (c_phase c); try discriminate; reflexivity | reflexivity]);
+         exact I0);
+    try (apply set_client_inv in H as (c & st & Hn & Hf & -> & _ & _);
+         intros j d Hc Hj Hp; cbn in Hc, Hj |- *; injection Hc as <-;
+         rewrite nth_upd_same, Hn in Hj; cbn in Hj; injection Hj as <-; cbn in Hp;
+         destruct (c_phase c); discriminate);
     unfold step, step_gen in H; cbn in H.
   - (* U_handle *)
     injection H as <- _. apply do_handle_inv.
@@ -285,11 +360,6 @@ Proof.
       destruct (j - length (clients s))%nat as [|n]; cbn in Hj.
       * injection Hj as <-. cbn in Hp. discriminate.
       * destruct n; discriminate.
-  - (* R_set_client *)
-    destruct (nth_error (clients s) k) as [c|] eqn:Hn; [|discriminate].
-    destruct (is_fresh (c_phase c)) eqn:Hf; [|discriminate]. injection H as <- _.
-    intros j d Hc Hj Hp. cbn in Hc, Hj |- *. injection Hc as <-.
-    rewrite Hn in Hj. injection Hj as <-. destruct (c_phase c); discriminate.
   - (* R_connect_begin *)
     destruct (cur s) as [k|] eqn:Hc; [|discriminate].
     eapply inv_on_client; [exact I|exact H|]. intros c He Hp. right. intros _. reflexivity.
@@ -302,7 +372,6 @@ Proof.
   - eapply inv_on_client; [exact I|exact H|]. intros c He Hp. left.
     split; [exact Hp | reflexivity].
   - eapply inv_on_client; [exact I|exact H|]. intros c He Hp. cbn in Hp. discriminate.
-  - eapply inv_on_client; [exact I|exact H|]. intros c He Hp. left. split; [exact Hp | reflexivity].
 Qed.
 
 (* ---------- state reached by a run, in terms of the history ---------- *)
@@ -352,7 +421,7 @@ Proof.
   injection S as <- _. unfold step_gen in E. cbn in E.
   destruct (cur s1) as [k|] eqn:Hc; [|discriminate].
   apply on_client_inv in E as (c & Hn & _ & -> & _).
-  exists k, {| c_handler := rc_handler s1; c_phase := Installed; c_stored := c_stored c |}. cbn.
+  exists k, {| c_handler := rc_handler s1; c_phase := Installed; c_store := c_store c |}. cbn.
   rewrite nth_upd_same, Hn. repeat split; try assumption.
 Qed.
 
@@ -532,7 +601,17 @@ Proof.
   intros L H. unfold step_loop in H.
   destruct l;
     try (apply inbound_handle_inv in H as (c & hh & _ & _ & _ & -> & _); apply do_handle_live_is_cur; exact L);
-    try (apply q2_release_inv in H; eapply live_is_cur_on_client; [exact L|exact H|]; intros c He Hl; left; exact Hl);
+    try (apply q2_publish_inv in H as (c & _ & _ & -> & _); exact L);
+    try (apply pubrel_unknown_inv in H as (-> & _); exact L);
+    try (apply q2_release_inv in H as (c & hp & _ & _ & _ & -> & _); exact L);
+    try (apply start_clean_inv in H as (s0 & st & H & ->);
+         assert (L0 : live_is_cur s0) by (eapply live_is_cur_on_client; [exact L|exact H|]; intros c He _; left;
+                                          destruct (c_phase c); try discriminate; reflexivity);
+         exact L0);
+    try (destruct (quiet s) eqn:Q; [|discriminate];
+         apply set_client_inv in H as (c & st & Hn & Hf & -> & _ & _);
+         intros j d Hj Hl; cbn in Hj; apply nth_upd_set_store in Hj as (c0 & Hj0 & Hp0 & _);
+         rewrite Hp0, (quiet_no_live s Q j c0 Hj0) in Hl; discriminate);
     unfold step, step_gen in H; cbn in H.
   - injection H as <- _. apply do_handle_live_is_cur; exact L.
   - injection H as <- _. intros j d Hj Hl. cbn in Hj |- *.
@@ -542,10 +621,6 @@ Proof.
       destruct (j - length (clients s))%nat as [|n]; cbn in Hj.
       * injection Hj as <-. discriminate.
       * destruct n; discriminate.
-  - destruct (quiet s) eqn:Q; [|discriminate].
-    destruct (nth_error (clients s) k) as [c|] eqn:Hn; [|discriminate].
-    destruct (is_fresh (c_phase c)); [|discriminate]. injection H as <- _.
-    intros j d Hj Hl. cbn in Hj. rewrite (quiet_no_live s Q j d Hj) in Hl. discriminate.
   - destruct (cur s) as [k|] eqn:Hc; [|discriminate].
     eapply live_is_cur_on_client; [exact L|exact H|]. intros c _ _. right. exact Hc.
   - eapply live_is_cur_on_client; [exact L|exact H|]. intros c He _. left.
@@ -555,7 +630,6 @@ Proof.
   - eapply live_is_cur_on_client; [exact L|exact H|]. intros c He Hl. left. exact Hl.
   - eapply live_is_cur_on_client; [exact L|exact H|]. intros c He Hl. left. exact Hl.
   - eapply live_is_cur_on_client; [exact L|exact H|]. intros c He Hl. cbn in Hl. discriminate.
-  - eapply live_is_cur_on_client; [exact L|exact H|]. intros c He Hl. left. exact Hl.
 Qed.
 
 Lemma run_loop_snoc ls l :
@@ -682,19 +756,23 @@ Lemma step_agree s t l s' e :
 Proof.
   intros A H. destruct l;
     try (apply inbound_handle_inv in H as (c & hh & _ & _ & _ & -> & _); apply do_handle_agree; exact A);
-    try (apply q2_release_inv in H; eapply on_client_keep_agree; [exact A|exact H|reflexivity]);
+    try (apply q2_publish_inv in H as (c & _ & _ & -> & _); exact A);
+    try (apply pubrel_unknown_inv in H as (-> & _); exact A);
+    try (apply q2_release_inv in H as (c & hp & _ & _ & _ & -> & _); exact A);
+    try (apply start_clean_inv in H as (s0 & st & H & ->);
+         assert (A0 : agree s0 t) by (eapply on_client_keep_agree; [exact A|exact H|reflexivity]);
+         exact A0);
+    try (apply set_client_inv in H as (c & st & _ & _ & -> & _ & _);
+         destruct A as (Hr & Hc & Hm); unfold agree; cbn;
+         rewrite map_upd_keep by reflexivity; repeat split; assumption);
     unfold step, step_gen in H; cbn in H; cbn [hist_step fst].
   - injection H as <- _. apply do_handle_agree; exact A.
   - injection H as <- _. destruct A as (Hr & Hc & Hm). unfold agree. cbn.
     rewrite map_app, Hm. repeat split; assumption.
-  - destruct (nth_error (clients s) k) as [c|]; [|discriminate].
-    destruct (is_fresh (c_phase c)); [|discriminate]. injection H as <- _.
-    destruct A as (Hr & Hc & Hm). unfold agree. cbn. repeat split; assumption.
   - destruct A as (Hr & Hc & Hm). destruct (cur s) as [k|] eqn:Ec; [|discriminate].
     apply on_client_inv in H as (c & _ & _ & -> & _). rewrite <- Hc.
     unfold agree. cbn. rewrite <- Hr, <- Hm. repeat split; try assumption.
     apply map_upd_put. reflexivity.
-  - eapply on_client_keep_agree; [exact A|exact H|reflexivity].
   - eapply on_client_keep_agree; [exact A|exact H|reflexivity].
   - eapply on_client_keep_agree; [exact A|exact H|reflexivity].
   - eapply on_client_keep_agree; [exact A|exact H|reflexivity].
@@ -816,40 +894,381 @@ Proof.
   destruct (c_phase c); try discriminate; reflexivity.
 Qed.
 
-Lemma spec_every_publish_release ls k m d :
-  spec_every (ls ++ [B_q2_publish k m d]) = spec_every ls /\
-  spec_every (ls ++ [B_q2_publish k m d; B_q2_release k m]) =
-  spec_every ls ++ [Deliver k m (entitled (hist_of ls) k)].
+(* ---- the inbound store is session state: one store for all connections of a RetryClient ---- *)
+Lemma sb_lookup_remove_same m l : sb_lookup m (sb_remove m l) = None.
 Proof.
-  unfold spec_every, hist_of. rewrite !hist_from_app.
-  destruct (hist_from hist_init [] ls) as [t1 e1]. cbn. rewrite !app_nil_r. split; reflexivity.
+  induction l as [|[x h] r IH]; cbn [sb_remove sb_lookup]; [reflexivity|].
+  destruct (N.eqb x m) eqn:E; [exact IH|]. cbn [sb_lookup]. rewrite E. exact IH.
 Qed.
 
-(* a QoS 2 PUBLISH processed on a connection — first transmission or the DUP=1 retransmission that is
-   the only copy a NEW connection ever sees — is released by the PUBREL that follows it: handed to
-   the handler the message is entitled to *)
+Lemma sb_lookup_remove_other m m' l : m' <> m -> sb_lookup m (sb_remove m' l) = sb_lookup m l.
+Proof.
+  intros Hne. induction l as [|[x h] r IH]; cbn [sb_remove sb_lookup]; [reflexivity|].
+  destruct (N.eqb x m') eqn:E'.
+  - apply N.eqb_eq in E'. subst x. destruct (N.eqb m' m) eqn:E; [apply N.eqb_eq in E; contradiction|exact IH].
+  - cbn [sb_lookup]. rewrite IH. reflexivity.
+Qed.
+
+Lemma nth_upd_st_same i f l : (i < length l)%nat -> nth i (upd_st i f l) [] = f (nth i l []).
+Proof.
+  revert i; induction l as [|x r IH]; intros [|i] H; cbn in *; try lia; [reflexivity|]. apply IH. lia.
+Qed.
+
+Lemma nth_upd_st_other i j f l : j <> i -> nth j (upd_st i f l) [] = nth j l [].
+Proof.
+  revert i j; induction l as [|x r IH]; intros [|i] [|j] H; cbn; try reflexivity; [contradiction|].
+  apply IH. intros ->. apply H. reflexivity.
+Qed.
+
+Lemma upd_st_length i f l : length (upd_st i f l) = length l.
+Proof. revert i; induction l as [|x r IH]; intros [|i]; cbn; try reflexivity. rewrite IH. reflexivity. Qed.
+
+Lemma lookup_in_range m i l : sb_lookup m (nth i l []) <> None -> (i < length l)%nat.
+Proof.
+  intros H. destruct (Nat.lt_ge_cases i (length l)) as [Hl|Hg]; [exact Hl|].
+  rewrite nth_overflow in H by exact Hg. cbn in H. contradiction.
+Qed.
+
+(* every client whose connection lives (or is pending) uses the inbound store of the CURRENT client:
+   one store per RetryClient session, whatever the number of connection objects *)
+Definition shares (s : sys) : Prop :=
+  (forall k c, nth_error (clients s) k = Some c -> live (c_phase c) = true ->
+               exists j cj, cur s = Some j /\ nth_error (clients s) j = Some cj /\ c_store c = c_store cj) /\
+  (forall k, cur s = Some k -> exists c, nth_error (clients s) k = Some c) /\
+  (forall k c, nth_error (clients s) k = Some c -> (c_store c < length (stores s))%nat).
+
+Lemma shares_init : shares init.
+Proof.
+  split; [|split].
+  - intros k c H. destruct k; discriminate.
+  - intros k H. discriminate.
+  - intros k c H. destruct k; discriminate.
+Qed.
+
+(* reading the clients after a guarded update *)
+Lemma nth_upd_cases k f cs j d :
+  nth_error (upd k f cs) j = Some d ->
+  (j = k /\ exists c, nth_error cs k = Some c /\ d = f c) \/ (j <> k /\ nth_error cs j = Some d).
+Proof.
+  destruct (Nat.eq_dec j k) as [->|Hne].
+  - rewrite nth_upd_same. destruct (nth_error cs k) as [c|]; [|discriminate]. cbn.
+    intros H; injection H as <-. left. split; [reflexivity|]. exists c. split; reflexivity.
+  - rewrite nth_upd_other by exact Hne. intros H. right. split; assumption.
+Qed.
+
+Lemma nth_upd_exists k f cs j c : nth_error cs j = Some c -> exists c', nth_error (upd k f cs) j = Some c' /\ (j <> k -> c' = c) /\ (j = k -> c' = f c).
+Proof.
+  intros H. destruct (Nat.eq_dec j k) as [->|Hne].
+  - rewrite nth_upd_same, H. eexists. split; [reflexivity|]. split; [intros X; contradiction|reflexivity].
+  - rewrite nth_upd_other by exact Hne. exists c. split; [exact H|]. split; [reflexivity|intros X; contradiction].
+Qed.
+
+(* a client update that keeps the store and makes nobody live who was not (except the current client) *)
+Lemma shares_upd s k f c0 :
+  shares s -> nth_error (clients s) k = Some c0 ->
+  c_store (f c0) = c_store c0 ->
+  (live (c_phase (f c0)) = true -> live (c_phase c0) = true \/ cur s = Some k) ->
+  shares (with_clients s (upd k f (clients s))).
+Proof.
+  intros (S1 & S2 & S3) Hn Hs Hl. split; [|split]; cbn.
+  - intros j d Hj Hd. apply nth_upd_cases in Hj as [(-> & c & Hc & ->)|(Hne & Hj)].
+    + rewrite Hn in Hc. injection Hc as <-.
+      destruct (Hl Hd) as [Hl0|Hc0].
+      * destruct (S1 k c0 Hn Hl0) as (jc & cj & Ec & Hjc & Hst).
+        destruct (nth_upd_exists k f _ _ _ Hjc) as (cj' & Hj' & Hne' & Heq').
+        exists jc, cj'. split; [exact Ec|]. split; [exact Hj'|]. rewrite Hs, Hst.
+        destruct (Nat.eq_dec jc k) as [->|Hn']; [rewrite (Heq' eq_refl); rewrite Hn in Hjc; injection Hjc as <-; symmetry; exact Hs
+                                                |rewrite (Hne' Hn'); reflexivity].
+      * exists k, (f c0). split; [exact Hc0|]. split; [rewrite nth_upd_same, Hn; reflexivity|reflexivity].
+    + destruct (S1 j d Hj Hd) as (jc & cj & Ec & Hjc & Hst).
+      destruct (nth_upd_exists k f _ _ _ Hjc) as (cj' & Hj' & Hne' & Heq').
+      exists jc, cj'. split; [exact Ec|]. split; [exact Hj'|]. rewrite Hst.
+      destruct (Nat.eq_dec jc k) as [->|Hn']; [rewrite (Heq' eq_refl); rewrite Hn in Hjc; injection Hjc as <-; symmetry; exact Hs
+                                              |rewrite (Hne' Hn'); reflexivity].
+  - intros j Hc. destruct (S2 j Hc) as (c & Hj). destruct (nth_upd_exists k f _ _ _ Hj) as (c' & Hj' & _). exists c'. exact Hj'.
+  - intros j d Hj. apply nth_upd_cases in Hj as [(-> & c & Hc & ->)|(Hne & Hj)].
+    + rewrite Hn in Hc. injection Hc as <-. rewrite Hs. apply (S3 k c0 Hn).
+    + apply (S3 j d Hj).
+Qed.
+
+Lemma shares_on_client s k en f evs s' e :
+  shares s -> on_client s k en f evs = Next s' e ->
+  (forall c, c_store (f c) = c_store c) ->
+  (forall c, en (c_phase c) = true -> live (c_phase (f c)) = true -> live (c_phase c) = true \/ cur s = Some k) ->
+  shares s'.
+Proof.
+  intros S H Hs Hl. apply on_client_inv in H as (c & Hn & He & -> & _).
+  apply shares_upd with (c0 := c); [exact S|exact Hn|apply Hs|apply Hl; exact He].
+Qed.
+
+Lemma shares_with_stores s st : shares s -> length st = length (stores s) -> shares (with_stores s st).
+Proof. intros (S1 & S2 & S3) Hl. split; [exact S1|split; [exact S2|]]. intros k c H. cbn. rewrite Hl. apply (S3 k c H). Qed.
+
+Lemma shares_ext s s' :
+  cur s' = cur s -> clients s' = clients s -> length (stores s') = length (stores s) -> shares s -> shares s'.
+Proof.
+  intros Hc Hcl Hl (S1 & S2 & S3). unfold shares. rewrite Hc, Hcl, Hl. split; [exact S1|split; [exact S2|exact S3]].
+Qed.
+
+Lemma do_handle_shares s h : shares s -> shares (do_handle faithful s h).
+Proof.
+  intros S. assert (Hx : forall k, cur s = Some k -> exists c, nth_error (clients s) k = Some c) by apply S.
+  destruct (cur s) as [k|] eqn:Ec.
+  - destruct (Hx k eq_refl) as (c & Hn).
+    assert (S' : shares (with_clients s (upd k (set_handler h) (clients s)))).
+    { apply (shares_upd s k (set_handler h) c S Hn eq_refl). intros X. left. exact X. }
+    eapply shares_ext; [| | |exact S']; unfold do_handle; cbn; try rewrite Ec; reflexivity.
+  - eapply shares_ext; [| | |exact S]; unfold do_handle; cbn; try rewrite Ec; reflexivity.
+Qed.
+
+Lemma step_shares s l s' e : shares s -> step s l = Next s' e -> shares s'.
+Proof.
+  intros S H. pose proof S as (S1 & S2 & S3). destruct l.
+  - (* U_handle *)
+    unfold step, step_gen in H. injection H as <- _. apply do_handle_shares. exact S.
+  - (* R_dial *)
+    unfold step, step_gen in H. injection H as <- _. split; [|split]; cbn.
+    + intros k c Hk Hl. destruct (Nat.lt_ge_cases k (length (clients s))) as [Hlt|Hge].
+      * rewrite nth_error_app1 in Hk by exact Hlt. destruct (S1 k c Hk Hl) as (j & cj & Ec & Hj & Hst).
+        exists j, cj. split; [exact Ec|]. split; [|exact Hst]. rewrite nth_error_app1; [exact Hj|].
+        apply nth_error_Some. rewrite Hj. discriminate.
+      * rewrite nth_error_app2 in Hk by exact Hge.
+        destruct (k - length (clients s))%nat as [|n]; cbn in Hk; [|destruct n; discriminate].
+        injection Hk as <-. discriminate.
+    + intros k Hc. destruct (S2 k Hc) as (c & Hk). exists c. rewrite nth_error_app1; [exact Hk|].
+      apply nth_error_Some. rewrite Hk. discriminate.
+    + intros k c Hk. rewrite app_length. cbn.
+      destruct (Nat.lt_ge_cases k (length (clients s))) as [Hlt|Hge].
+      * rewrite nth_error_app1 in Hk by exact Hlt. pose proof (S3 k c Hk). lia.
+      * rewrite nth_error_app2 in Hk by exact Hge.
+        destruct (k - length (clients s))%nat as [|n]; cbn in Hk; [|destruct n; discriminate].
+        injection Hk as <-. cbn. lia.
+  - (* R_set_client: the new current client continues with the store of the one it replaces *)
+    apply set_client_inv in H as (c & st & Hn & Hf & -> & _ & ->).
+    assert (Hfr : live (c_phase c) = false) by (destruct (c_phase c); try discriminate; reflexivity).
+    split; [|split]; cbn.
+    + intros j d Hj Hl. apply nth_upd_cases in Hj as [(-> & c1 & Hc1 & ->)|(Hne & Hj)].
+      * rewrite Hn in Hc1. injection Hc1 as <-. cbn in Hl. rewrite Hfr in Hl. discriminate.
+      * destruct (S1 j d Hj Hl) as (jc & cj & Ec & Hjc & Hst).
+        exists k, (set_store (inherited_store s k c) c). split; [reflexivity|].
+        split; [rewrite nth_upd_same, Hn; reflexivity|]. cbn. unfold inherited_store. rewrite Ec.
+        destruct (Nat.eqb jc k) eqn:E.
+        -- apply Nat.eqb_eq in E. subst jc. rewrite Hn in Hjc. injection Hjc as <-. exact Hst.
+        -- rewrite Hjc. exact Hst.
+    + intros j Hc. injection Hc as <-. rewrite nth_upd_same, Hn. eexists. reflexivity.
+    + intros j d Hj. apply nth_upd_cases in Hj as [(-> & c1 & Hc1 & ->)|(Hne & Hj)]; [|apply (S3 j d Hj)].
+      rewrite Hn in Hc1. injection Hc1 as <-. cbn. unfold inherited_store.
+      destruct (cur s) as [jc|] eqn:Ec; [|apply (S3 k c Hn)].
+      destruct (Nat.eqb jc k); [apply (S3 k c Hn)|].
+      destruct (nth_error (clients s) jc) as [cj|] eqn:Hjc; [apply (S3 jc cj Hjc)|apply (S3 k c Hn)].
+  - (* R_connect_begin *)
+    unfold step, step_gen in H. cbn in H. destruct (cur s) as [k|] eqn:Ec; [|discriminate].
+    eapply shares_on_client; [exact S|exact H|reflexivity|]. intros c _ _. right. exact Ec.
+  - unfold step, step_gen in H. cbn in H. eapply shares_on_client; [exact S|exact H|reflexivity|].
+    intros c He _. left. destruct (c_phase c); try discriminate; reflexivity.
+  - unfold step, step_gen in H. cbn in H. eapply shares_on_client; [exact S|exact H|reflexivity|].
+    intros c He _. left. destruct (c_phase c); try discriminate; reflexivity.
+  - unfold step, step_gen in H. cbn in H. eapply shares_on_client; [exact S|exact H|reflexivity|].
+    intros c _ Hl. left. exact Hl.
+  - apply inbound_handle_inv in H as (c & hh & _ & _ & _ & -> & _). apply do_handle_shares. exact S.
+  - unfold step, step_gen in H. cbn in H. eapply shares_on_client; [exact S|exact H|reflexivity|].
+    intros c _ Hl. left. exact Hl.
+  - unfold step, step_gen in H. cbn in H. eapply shares_on_client; [exact S|exact H|reflexivity|].
+    intros c _ Hl. cbn in Hl. discriminate.
+  - apply q2_publish_inv in H as (c & _ & _ & -> & _). apply shares_with_stores; [exact S|apply upd_st_length].
+  - apply q2_release_inv in H as (c & hp & _ & _ & _ & -> & _). apply shares_with_stores; [exact S|apply upd_st_length].
+  - unfold step, step_gen in H. destruct (nth_error (clients s) k) as [c|] eqn:Hn; [|discriminate].
+    destruct (is_installed (c_phase c)) eqn:E; [|discriminate]. injection H as <- _.
+    apply (shares_with_stores (with_clients s (upd k (set_phase Reading) (clients s)))); [|apply upd_st_length].
+    apply (shares_upd s k (set_phase Reading) c S Hn eq_refl). intros _. left.
+    destruct (c_phase c); try discriminate; reflexivity.
+  - apply pubrel_unknown_inv in H as (-> & _). exact S.
+Qed.
+
+Lemma run_shares ls : forall s evs, run ls = Next s evs -> shares s.
+Proof.
+  induction ls as [|l ls IH] using rev_ind; intros s evs H.
+  - injection H as <- _. exact shares_init.
+  - unfold run, run_gen in H. rewrite run_from_snoc in H.
+    destruct (run_from faithful init [] ls) as [s1 evs1| | |] eqn:R; try discriminate.
+    destruct (step_gen faithful s1 l) as [s2 e| | |] eqn:S; try discriminate.
+    injection H as <- _. eapply step_shares; [apply (IH s1 evs1 R)|exact S].
+Qed.
+
+(* ---- a stored QoS 2 message waits for its PUBREL in the session, whatever happens to connections ---- *)
+Definition keeps (m : N) (l : label) : bool :=
+  match l with
+  | B_q2_release _ m' => negb (N.eqb m' m)      (* not: a PUBREL for m *)
+  | R_connect_start_clean _ => false           (* not: a connect that asks for a clean session *)
+  | _ => true
+  end.
+
+(* m waits in the store the current client uses *)
+Definition pending (s : sys) (m : N) : Prop :=
+  exists j cj, cur s = Some j /\ nth_error (clients s) j = Some cj /\ sb_lookup m (store_of s cj) <> None.
+
+Lemma lookup_after_remove m i l : sb_lookup m (nth i (upd_st i (sb_remove m) l) []) = None.
+Proof.
+  revert i; induction l as [|x r IH]; intros [|i]; cbn [upd_st nth]; try reflexivity.
+  - apply sb_lookup_remove_same.
+  - apply IH.
+Qed.
+
+Lemma pending_upd s m k f :
+  (forall c, c_store (f c) = c_store c) -> pending s m -> pending (with_clients s (upd k f (clients s))) m.
+Proof.
+  intros Hs (j & cj & Ec & Hj & Hl). destruct (nth_upd_exists k f _ _ _ Hj) as (c' & Hj' & Hne & Heq).
+  exists j, c'. split; [exact Ec|]. split; [exact Hj'|]. unfold store_of in *. cbn.
+  destruct (Nat.eq_dec j k) as [E|E]; [rewrite (Heq E), Hs|rewrite (Hne E)]; exact Hl.
+Qed.
+
+Lemma pending_ext s s' m :
+  cur s' = cur s -> clients s' = clients s -> stores s' = stores s -> pending s m -> pending s' m.
+Proof.
+  intros Hc Hcl Hst (j & cj & Ec & Hj & Hl). exists j, cj. unfold store_of in *. rewrite Hc, Hcl, Hst.
+  split; [exact Ec|]. split; [exact Hj|exact Hl].
+Qed.
+
+Lemma do_handle_pending s h m : pending s m -> pending (do_handle faithful s h) m.
+Proof.
+  intros P. destruct (cur s) as [k|] eqn:Ec.
+  - assert (P' : pending (with_clients s (upd k (set_handler h) (clients s))) m)
+      by (apply pending_upd; [reflexivity|exact P]).
+    eapply pending_ext; [| | |exact P']; unfold do_handle; cbn; try rewrite Ec; reflexivity.
+  - eapply pending_ext; [| | |exact P]; unfold do_handle; cbn; try rewrite Ec; reflexivity.
+Qed.
+
+Lemma pending_stores s m i g :
+  pending s m ->
+  (forall l, sb_lookup m l <> None -> sb_lookup m (g l) <> None) ->
+  pending (with_stores s (upd_st i g (stores s))) m.
+Proof.
+  intros (j & cj & Ec & Hj & Hl) Hg. exists j, cj. split; [exact Ec|]. split; [exact Hj|].
+  unfold store_of in *. cbn. destruct (Nat.eq_dec (c_store cj) i) as [E|E].
+  - subst i. rewrite nth_upd_st_same by (eapply lookup_in_range; exact Hl). apply Hg. exact Hl.
+  - rewrite nth_upd_st_other by exact E. exact Hl.
+Qed.
+
+Lemma step_pending s l s' e m :
+  pending s m -> keeps m l = true -> step s l = Next s' e -> pending s' m.
+Proof.
+  intros P K H.
+  assert (G : forall k en f evs, on_client s k en f evs = Next s' e -> (forall c, c_store (f c) = c_store c) -> pending s' m).
+  { intros k en f evs Ho Hs. apply on_client_inv in Ho as (c & _ & _ & -> & _). apply pending_upd; assumption. }
+  destruct l.
+  - unfold step, step_gen in H. injection H as <- _. apply do_handle_pending. exact P.
+  - unfold step, step_gen in H. injection H as <- _. destruct P as (j & cj & Ec & Hj & Hl).
+    exists j, cj. cbn. split; [exact Ec|]. split.
+    + rewrite nth_error_app1; [exact Hj|]. apply nth_error_Some. rewrite Hj. discriminate.
+    + unfold store_of in *. cbn. rewrite app_nth1 by (eapply lookup_in_range; exact Hl). exact Hl.
+  - apply set_client_inv in H as (c & st & Hn & Hf & -> & _ & ->). destruct P as (j & cj & Ec & Hj & Hl).
+    exists k, (set_store (inherited_store s k c) c). cbn. split; [reflexivity|].
+    split; [rewrite nth_upd_same, Hn; reflexivity|]. unfold store_of in *. cbn. unfold inherited_store. rewrite Ec.
+    destruct (Nat.eqb j k) eqn:E.
+    + apply Nat.eqb_eq in E. subst j. rewrite Hn in Hj. injection Hj as <-. exact Hl.
+    + rewrite Hj. exact Hl.
+  - unfold step, step_gen in H. cbn in H. destruct (cur s) as [k|] eqn:Ec; [|discriminate].
+    apply (G _ _ _ _ H). reflexivity.
+  - unfold step, step_gen in H. cbn in H. apply (G _ _ _ _ H). reflexivity.
+  - unfold step, step_gen in H. cbn in H. apply (G _ _ _ _ H). reflexivity.
+  - unfold step, step_gen in H. cbn in H. apply (G _ _ _ _ H). reflexivity.
+  - apply inbound_handle_inv in H as (c & hh & _ & _ & _ & -> & _). apply do_handle_pending. exact P.
+  - unfold step, step_gen in H. cbn in H. apply (G _ _ _ _ H). reflexivity.
+  - unfold step, step_gen in H. cbn in H. apply (G _ _ _ _ H). reflexivity.
+  - apply q2_publish_inv in H as (c & _ & _ & -> & _). apply pending_stores; [exact P|].
+    intros l Hl. cbn [sb_lookup]. destruct (N.eqb m0 m) eqn:E; [discriminate|].
+    rewrite sb_lookup_remove_other; [exact Hl|]. intros ->. rewrite N.eqb_refl in E. discriminate.
+  - apply q2_release_inv in H as (c & hp & _ & _ & _ & -> & _). apply pending_stores; [exact P|].
+    intros l Hl. cbn in K. rewrite sb_lookup_remove_other; [exact Hl|].
+    intros ->. rewrite N.eqb_refl in K. discriminate.
+  - discriminate.
+  - apply pubrel_unknown_inv in H as (-> & _). exact P.
+Qed.
+
+Lemma run_from_pending m mid : forall s evs s' evs',
+  shares s -> pending s m -> forallb (keeps m) mid = true ->
+  run_from faithful s evs mid = Next s' evs' -> pending s' m /\ shares s'.
+Proof.
+  induction mid as [|l r IH]; intros s evs s' evs' S P K H; cbn [run_from forallb] in *.
+  - injection H as <- _. split; assumption.
+  - apply andb_true_iff in K as (K1 & K2).
+    destruct (step_gen faithful s l) as [s1 e| | |] eqn:E; try discriminate.
+    apply (IH s1 (evs ++ e) s' evs'); [eapply step_shares; [exact S|exact E]|eapply step_pending; [exact P|exact K1|exact E]|exact K2|exact H].
+Qed.
+
+Lemma spec_every_snoc_release ls k m :
+  spec_every (ls ++ [B_q2_release k m]) = spec_every ls ++ [Deliver k m (entitled (hist_of ls) k)].
+Proof.
+  unfold spec_every, hist_of. rewrite hist_from_app.
+  destruct (hist_from hist_init [] ls) as [t1 e1]. reflexivity.
+Qed.
+
+(* A QoS 2 PUBLISH processed on connection k (PUBREC sent) and not yet released is released by a
+   PUBREL on ANY connection k' of the session whose reader runs — the same one, or one created by any
+   number of later SetClient/Connect, as long as no PUBREL for m was processed and no connect asked
+   for a clean session in between: handed (exactly once: a repeated PUBREL releases nothing) to the
+   handler the message is entitled to at that moment; the release step includes the PUBCOMP. *)
+Lemma q2_released_on_later_connection pre k m d mid s evs k' c' :
+  run (pre ++ B_q2_publish k m d :: mid) = Next s evs ->
+  forallb (keeps m) mid = true ->
+  nth_error (clients s) k' = Some c' -> reader_runs (c_phase c') = true ->
+  (exists s', run ((pre ++ B_q2_publish k m d :: mid) ++ [B_q2_release k' m]) =
+              Next s' (evs ++ [Deliver k' m (entitled (hist_of (pre ++ B_q2_publish k m d :: mid)) k')])) /\
+  run ((pre ++ B_q2_publish k m d :: mid) ++ [B_q2_release k' m; B_q2_release k' m]) = Disabled.
+Proof.
+  intros H K Hn' Hr'. set (h := pre ++ B_q2_publish k m d :: mid) in *.
+  destruct (run_prefix _ _ _ _ H) as (s1 & evs1 & R1 & Rm). cbn [run_from] in Rm.
+  destruct (step_gen faithful s1 (B_q2_publish k m d)) as [s2 e2| | |] eqn:E2; try discriminate.
+  fold (step s1 (B_q2_publish k m d)) in E2.
+  pose proof (run_shares _ _ _ R1) as S1.
+  pose proof (step_shares _ _ _ _ S1 E2) as S2.
+  assert (P2 : pending s2 m).
+  { apply q2_publish_inv in E2 as (c & Hn & Hr & -> & _). destruct S1 as (A1 & A2 & A3).
+    assert (Hl : live (c_phase c) = true) by (destruct (c_phase c); try discriminate; reflexivity).
+    destruct (A1 k c Hn Hl) as (j & cj & Ec & Hj & Hst).
+    exists j, cj. split; [exact Ec|]. split; [exact Hj|]. unfold store_of. cbn. rewrite <- Hst.
+    rewrite nth_upd_st_same by (apply (A3 k c Hn)). cbn [sb_lookup]. rewrite N.eqb_refl. discriminate. }
+  destruct (run_from_pending m mid _ _ _ _ S2 P2 K Rm) as (P & S).
+  (* the PUBREL on k' finds m *)
+  assert (Hl' : live (c_phase c') = true) by (destruct (c_phase c'); try discriminate; reflexivity).
+  destruct S as (A1 & A2 & A3). destruct (A1 k' c' Hn' Hl') as (j & cj & Ec & Hj & Hst).
+  destruct P as (j2 & cj2 & Ec2 & Hj2 & Hlk). rewrite Ec in Ec2. injection Ec2 as <-.
+  rewrite Hj in Hj2. injection Hj2 as <-.
+  assert (Hlk' : sb_lookup m (store_of s c') <> None) by (unfold store_of in *; rewrite Hst; exact Hlk).
+  destruct (sb_lookup m (store_of s c')) as [hp|] eqn:El; [|contradiction].
+  assert (E3 : step_gen faithful s (B_q2_release k' m) =
+               Next (with_stores s (upd_st (c_store c') (sb_remove m) (stores s))) [Deliver k' m (c_handler c')]).
+  { unfold step_gen. rewrite Hn', Hr', El. reflexivity. }
+  assert (R3 : run (h ++ [B_q2_release k' m]) =
+               Next (with_stores s (upd_st (c_store c') (sb_remove m) (stores s))) (evs ++ [Deliver k' m (c_handler c')])).
+  { unfold run, run_gen in *. rewrite run_from_snoc, H, E3. reflexivity. }
+  split.
+  - eexists. rewrite R3. f_equal.
+    pose proof (delivery_every _ _ _ R3) as D3. pose proof (delivery_every _ _ _ H) as D0.
+    rewrite spec_every_snoc_release, <- D0 in D3. exact D3.
+  - replace (h ++ [B_q2_release k' m; B_q2_release k' m]) with ((h ++ [B_q2_release k' m]) ++ [B_q2_release k' m])
+      by (rewrite <- app_assoc; reflexivity).
+    unfold run, run_gen in *. rewrite run_from_snoc, R3. unfold step_gen. cbn [clients with_stores].
+    rewrite Hn', Hr'. unfold store_of. cbn [stores with_stores]. rewrite lookup_after_remove. reflexivity.
+Qed.
+
+(* the special case "the PUBREL directly follows, on the same connection": in particular the DUP=1
+   retransmission that is the first copy the session ever sees *)
 Lemma q2_publish_then_release ls k m d s evs :
   run (ls ++ [B_q2_publish k m d]) = Next s evs ->
   exists s', run (ls ++ [B_q2_publish k m d; B_q2_release k m]) = Next s'
                  (evs ++ [Deliver k m (entitled (hist_of ls) k)]).
 Proof.
   intros H.
-  assert (E : exists s' e, step s (B_q2_release k m) = Next s' e).
+  assert (Hc : exists c, nth_error (clients s) k = Some c /\ reader_runs (c_phase c) = true).
   { destruct (run_prefix _ _ _ _ H) as (s1 & evs1 & _ & S). cbn [run_from] in S.
     destruct (step_gen faithful s1 (B_q2_publish k m d)) as [s2 e2| | |] eqn:E2; try discriminate.
-    injection S as <- _. unfold step_gen in E2. cbn in E2.
-    apply on_client_inv in E2 as (c & Hn & Hr & -> & _).
-    unfold step, step_gen, on_client. cbn. rewrite nth_upd_same, Hn. cbn. rewrite N.eqb_refl. cbn.
-    rewrite Hr. eexists. eexists. reflexivity. }
-  destruct E as (s' & e & E). exists s'.
-  assert (R : run (ls ++ [B_q2_publish k m d; B_q2_release k m]) = Next s' (evs ++ e)).
-  { replace (ls ++ [B_q2_publish k m d; B_q2_release k m]) with ((ls ++ [B_q2_publish k m d]) ++ [B_q2_release k m])
-      by (rewrite <- app_assoc; reflexivity).
-    unfold run, run_gen in *. rewrite run_from_snoc, H. unfold step in E. rewrite E. reflexivity. }
-  rewrite R. f_equal.
-  pose proof (delivery_every _ _ _ R) as E1. pose proof (delivery_every _ _ _ H) as E0.
-  destruct (spec_every_publish_release ls k m d) as (P1 & P2). rewrite P2 in E1. rewrite P1 in E0.
-  rewrite <- E0 in E1. exact E1.
+    injection S as <- _. fold (step s1 (B_q2_publish k m d)) in E2.
+    apply q2_publish_inv in E2 as (c & Hn & Hr & -> & _). exists c. split; assumption. }
+  destruct Hc as (c & Hn & Hr).
+  destruct (q2_released_on_later_connection ls k m d [] s evs k c H eq_refl Hn Hr) as ((s' & R) & _).
+  exists s'. rewrite <- app_assoc in R. cbn [app] in R. rewrite R. f_equal. f_equal. f_equal.
+  unfold hist_of. rewrite hist_from_snoc. destruct (hist_from hist_init [] ls) as [t1 e1]. reflexivity.
 Qed.
 
 (* ---------- the Go panic ---------- *)
@@ -1000,13 +1419,13 @@ Proof.
   split; [eexists; eexists; vm_compute; reflexivity|]. vm_compute. reflexivity.
 Qed.
 
-(* a retransmitted (DUP=1) QoS 2 PUBLISH is acknowledged but not stored (seeded change C17-11): after a
-   reconnect the DUP copy is the only one the new connection sees, its PUBREL finds nothing *)
+(* a retransmitted (DUP=1) QoS 2 PUBLISH is acknowledged but not stored (seeded change C17-11): when the
+   first transmission never reached the client (lost with connection 0) the DUP copy is the only one
+   the session ever sees, its PUBREL finds nothing *)
 Lemma q2_dup_not_stored_refuted :
   exists ls, (exists s evs, run_loop ls = Next s evs) /\ run_gen v_q2_dup_not_stored ls = Disabled.
 Proof.
-  exists (U_handle (Some 1) :: conn 0 ++ [B_q2_publish 0 7 false; R_end 0] ++ conn 1 ++
-          [B_q2_publish 1 7 true; B_q2_release 1 7]).
+  exists (U_handle (Some 1) :: conn 0 ++ [R_end 0] ++ conn 1 ++ [B_q2_publish 1 7 true; B_q2_release 1 7]).
   split; [eexists; eexists; vm_compute; reflexivity|]. vm_compute. reflexivity.
 Qed.
 
@@ -1017,10 +1436,27 @@ Proof.
   split; [eexists; eexists; vm_compute; reflexivity|]. eexists. eexists. vm_compute. split; reflexivity.
 Qed.
 
-(* scope: the subBuffer is a local of serve(): a message whose PUBLISH was stored by a connection that
-   has ended is NOT released by a PUBREL arriving on the next connection (the step is not enabled) *)
-Example q2_pending_not_carried_over :
-  run (U_handle (Some 1) :: conn 0 ++ [B_q2_publish 0 7 false; R_end 0] ++ conn 1 ++ [B_q2_release 1 7]) = Disabled.
+(* the store of received QoS 2 messages belongs to one connection object (/repo before 9cd7f01): a
+   PUBREL arriving on the next connection for a message stored by the previous one releases nothing *)
+Lemma q2_store_per_connection_refuted :
+  exists ls, (exists s evs, run_loop ls = Next s evs) /\ run_gen v_q2_store_per_connection ls = Disabled.
+Proof.
+  exists (U_handle (Some 1) :: conn 0 ++ [B_q2_publish 0 7 false; R_end 0] ++ conn 1 ++ [B_q2_release 1 7]).
+  split; [eexists; eexists; vm_compute; reflexivity|]. vm_compute. reflexivity.
+Qed.
+
+(* non-vacuity of q2_released_on_later_connection: stored on connection 0, two reconnects (the second
+   connection never gets a CONNACK), a handler replacement in between, released on connection 2 *)
+Example ex_q2_across_two_reconnects :
+  exists s, run_loop (U_handle (Some 1) :: conn 0 ++ [B_q2_publish 0 7 false; R_end 0] ++
+                      [R_dial None; R_set_client 1; R_connect_begin; R_connect_start 1; R_end 1] ++
+                      [U_handle (Some 2)] ++ conn 2 ++ [B_q2_release 2 7]) = Next s [Deliver 2 7 (Some 2)].
+Proof. eexists. vm_compute. reflexivity. Qed.
+
+(* a connect that asks for a clean session forgets the stored messages: the PUBREL is then unknown *)
+Example ex_q2_clean_session_forgets :
+  run (U_handle (Some 1) :: conn 0 ++ [B_q2_publish 0 7 false; R_end 0] ++
+       [R_dial None; R_set_client 1; R_connect_begin; R_connect_start_clean 1; R_connack 1; B_q2_release 1 7]) = Disabled.
 Proof. vm_compute. reflexivity. Qed.
 
 (* ... while the faithful model passes on every one of these schedules (instance of delivery_meets) *)
